@@ -195,6 +195,50 @@ func VerifProcessorReplaceHead() {
 	zzverif.Cover("processor_replace_head_done")
 }
 
+// Close called twice - concurrently, or one after the other - while a callback is in progress: NO Close call returns
+// while the callback is still running (each waits for the loop, not only the call that stopped it), and nothing runs
+// afterwards.
+//
+//verif:harness prop=C06 name=processor_close_twice threads=4 sched=delay preempt=2 t_preempt=3 unwind=10 witness=lenient
+func VerifProcessorCloseTwice() {
+	start := zzverif.TimeFromNanos(1_000_000_000)
+	clk := zzverifstubs.NewClock(start)
+	running, finished := false, 0
+	release := make(chan struct{})
+	p := NewProcessor[int, *vItem](func(r *vItem) {
+		zzverif.Ghost(func() { running = true })
+		<-release
+		zzverif.Ghost(func() { running = false; finished++ })
+	}).WithClock(clk)
+	p.Enqueue(&vItem{key: 1, due: start, id: 1}) // due at once
+	p.Enqueue(&vItem{key: 2, due: start.Add(time.Second), id: 2})
+	zzverif.WaitQuiescent() // the callback for item 1 is in progress, blocked
+	zzverif.Assert(running, "due_item_is_running")
+	returned := 0
+	for i := 0; i < 2; i++ {
+		go func() {
+			p.Close()
+			zzverif.Ghost(func() {
+				returned++
+				if running {
+					zzverif.Fail("close_returned_while_callback_running")
+				}
+			})
+		}()
+	}
+	zzverif.WaitQuiescent()
+	zzverif.Assert(returned == 0, "no_close_returns_while_callback_running")
+	release <- struct{}{}
+	zzverif.WaitQuiescent()
+	zzverif.Assert(returned == 2, "both_close_calls_return_after_callback")
+	clk.Advance(2 * time.Second)
+	zzverif.WaitQuiescent()
+	zzverif.Assert(finished == 1, "nothing_runs_after_close")
+	p.Close() // a third one, afterwards, returns at once
+	zzverif.Assert(zzverif.ThreadsAliveIs(0), "loop_goroutine_gone_after_close")
+	zzverif.Cover("processor_close_twice_done")
+}
+
 // vHeapOK: the queue's representation invariant - every parent is not later than its children, every item knows its
 // position, and the key index maps each key to its item
 func vHeapOK(q *queue[int, *vItem]) bool {
